@@ -39,6 +39,9 @@ def scenarios(tier):
     for pat in ('obedient', 'stubborn'):
         out.append(Scenario('ks', k='none', pat=pat, n=2, w=0.25, probe=False))
     out = [s_ for s_ in out if not (s_.p.get('k') == 'kill-3s' and s_.p.get('pat') != 'stubborn')]
+    # nothing else in flight and three workers that never die from the stop signal: the bound is ONE grace period for an
+    # operation that terminates them together (the sum over the workers only for a sequential reload)
+    out.append(Scenario('ks', k='none', pat='stubborn', n=3, w=0.0, probe=False, tight=True))
     # a watcher that does not respawn and has lost a worker: active, one short
     for pat in ('obedient', 'stubborn'):
         out.append(Scenario('ks', k='die-then-check', pat=pat, n=2, w=0.0, probe=False, respawn=False))
@@ -143,6 +146,11 @@ def run(scn, ch):
         limit = 2 * max(gmax, 0.6) + scn.n * scn.w + 1.0
         for t_s, ev in world.s_records:
             rq = ev.request
+            if scn.p.get('tight'):
+                # the applicable grace periods: one per termination phase of the operation (the reply of a kill request
+                # that carries its own grace period: that one)
+                phases = scn.n if ev.label.startswith('reload-seq') else 1
+                limit = phases * float(ev.props.get('graceful_timeout', G)) + scn.n * scn.w + 0.5
             rep = rq.reply()
             waiting = bool(ev.props.get('waiting'))
             accepted = rq.replied() and (rep or {}).get('status') == 'ok' if not waiting else None
